@@ -113,7 +113,10 @@ def deliver (C : Crypto) (w : World) (id : Nat) (how : How) : World × Outcome :
         match callContract C w1 p.src d.to d.func d.egld (esdtB d.esdt) d.args with
         | some (w2, rs, evs, _) =>
           ({ w2 with pending := setResult w2.pending id (true, rs) }, .ok rs evs [])
-        | none => ({ w with pending := setResult w.pending id (false, []) }, .fail)
+        | none =>
+          -- a call to an address that holds no contract is a plain transfer: it succeeds
+          if (w1.kind d.to).isNone then ({ w1 with pending := setResult w1.pending id (true, []) }, .ok [] [] [])
+          else ({ w with pending := setResult w.pending id (false, []) }, .fail)
 
 /-- run the callback of a delivered call -/
 def callback (C : Crypto) (w : World) (id : Nat) : World × Outcome :=
